@@ -267,7 +267,7 @@ def main():
     seed = int(os.environ.get('VERIF_SEED', '0'))
     t0 = time.time()
     ctx = {'repo': kv.REPO, 'tier': tier, 'seed': seed,
-           'tmp': os.path.join(kv.BUILD, 'tmp', prop_id)}
+           'tmp': os.path.join(kv.BUILD, 'tmp', f'{prop_id}-{os.getpid()}')}
     shutil.rmtree(ctx['tmp'], ignore_errors=True)
     os.makedirs(ctx['tmp'], exist_ok=True)
     notes = []
@@ -519,7 +519,7 @@ def replay(mod, prop_id, path):
             return 1
     else:
         case = payload['case']
-    ctx = {'repo': kv.REPO, 'tier': 'quick', 'seed': 0, 'tmp': os.path.join(kv.BUILD, 'tmp', prop_id + '-replay')}
+    ctx = {'repo': kv.REPO, 'tier': 'quick', 'seed': 0, 'tmp': os.path.join(kv.BUILD, 'tmp', f'{prop_id}-replay-{os.getpid()}')}
     shutil.rmtree(ctx['tmp'], ignore_errors=True)
     os.makedirs(ctx['tmp'], exist_ok=True)
     obs = run_case(mod, case, ctx)
